@@ -90,7 +90,7 @@ theorem constants_defining_equations (n m : Nat) (hm : m < B ^ n) (hodd : m % 2 
   have hpos : 0 < m := by omega
   have hlt : ∀ x, x % m < B ^ n := fun x => Nat.lt_trans (Nat.mod_lt _ hpos) hm
   exact ⟨val_toLimbs_lt (hlt _), val_toLimbs_lt (hlt _), val_toLimbs_lt (hlt _),
-    (good_spec hm hodd hgt).k, rfl⟩
+    (good_spec hm hodd).k, rfl⟩
 
 /-! ## T08.4 — almost-Montgomery multiplication (src/modular/boxed_monty_form/mul.rs), all limb counts -/
 
@@ -137,8 +137,8 @@ theorem source_comment_claims_2_3_need_reduced_inputs :
 
 /-! ## T08.3 — history invariant: every prefix state is canonical and `retrieve` returns the denotation
 
-  `Good p n m` : the parameter set holds the defined constants for the odd modulus `1 < m < B^n`
-                 (true of every constructor by T08.2).
+  `Good p n m` : the parameter set holds the defined constants for the odd modulus `0 < m < B^n`
+                 (true of every constructor for `m > 1` by T08.2; for `m = 1` the constructors' `one` is wrong).
   `Inv n m st sp` : `st.store = sp.map (canon n m)` and every residue in `sp` is `< m`, where
                  `canon n m x = toLimbs n (x·B^n mod m)` and `sp` is the same history evaluated in ℤ/m (`stepSpec`).
   `wt n op`     : the integer given to `new` is an `n`-limb value (it is a `Uint<n>` / `BoxedUint` of that precision).
@@ -194,11 +194,22 @@ theorem history_from_constructors (n m : Nat) (hm : m < B ^ n) (hodd : m % 2 = 1
     val (st.get i) < m ∧ st.get i = canon n m (sget sp i) ∧ opRetrieve st (st.get i) = toLimbs n (sget sp i) := by
   have ⟨a, b, c, d⟩ := params_eq_spec hm hodd hgt
   have hps : p = paramsSpec n m := by
-    rcases hp with h | h | h | h <;> rw [h] <;> assumption
-  have g : Good p n m := hps ▸ good_spec hm hodd hgt
+    rcases hp with h | h | h | h <;> (rw [h]; assumption)
+  have g : Good p n m := hps ▸ good_spec hm hodd
   intro st sp
   have ⟨h1, h2, _, h4⟩ := history_canonical_and_retrieve (rep := rep) g ops hw k i
   exact ⟨h1, h2, h4⟩
+
+/-! ## T08.5 — conversions const → dyn → boxed (`MontyForm::from(&ConstMontyForm)`, `from_const_params`,
+     `BoxedMontyForm::from_montgomery(to_montgomery())`) reuse the stored parameters and representatives -/
+
+/-- a conversion changes neither any parameter field nor any stored Montgomery form; only the representation
+    tag (which selects the fixed-width or the boxed algorithms for the FOLLOWING operations) moves one step along
+    const → dyn → boxed. That the following operations still return canonical values is `history_step`. -/
+theorem conversion_keeps_fields_and_values (st : State) :
+    (step st .conv).params = st.params ∧ (step st .conv).store = st.store ∧
+    (step st .conv).rep = (match st.rep with | .const => .dyn | .dyn => .boxed | .boxed => .boxed) := by
+  cases h : st.rep <;> simp [step, h]
 
 /-- non-vacuity: the hypotheses hold for the 2-limb modulus 2^64 + 1 and a concrete history. -/
 example : ∃ n m, m < B ^ n ∧ m % 2 = 1 ∧ 1 < m ∧
@@ -206,7 +217,7 @@ example : ∃ n m, m < B ^ n ∧ m % 2 = 1 ∧ 1 < m ∧
   ⟨2, 18446744073709551617, by decide, by decide, by decide, by
     intro op h
     simp only [List.mem_cons, List.not_mem_nil, or_false] at h
-    rcases h with h | h | h | h | h | h | h <;> subst h <;> simp only [wt] <;> decide⟩
+    rcases h with h | h | h | h | h | h | h <;> (subst h; simp only [wt]; try decide)⟩
 
 /-! ## the modulus-1 defect (DESIGN §7-14) as theorems about the model -/
 
@@ -215,6 +226,21 @@ theorem one_not_canonical_modulus_one :
     (paramsNew [1]).one = [1] ∧ (paramsNewVartime [1]).one = [1] ∧ (paramsConst [1]).one = [1] ∧
     (paramsBoxed [1]).one = [1] ∧ ¬ val (paramsNew [1]).one < val [1] := by
   decide +kernel
+
+/-- The history theorem does NOT need `m > 1`: started from the DEFINED constants (`one = R mod 1 = 0`) it holds for
+    modulus 1 as well, for every limb count — every stored form is 0 and `retrieve()` is 0. So the only thing wrong
+    for modulus 1 is the constructors' `one` (the repair in notes/C08.md reduces it). -/
+theorem history_any_good_params (n : Nat) (hn : 0 < n) (rep : Rep)
+    (ops : List MontyOp) (hw : ∀ op ∈ ops, wt n op) (k i : Nat) :
+    let st := run { rep := rep, params := paramsSpec n 1, store := [] } (ops.take k)
+    st.get i = uzero n ∧ opRetrieve st (st.get i) = uzero n := by
+  have hm : 1 < B ^ n := Nat.one_lt_pow (by omega) (by decide)
+  have g : Good (paramsSpec n 1) n 1 := good_spec hm (by decide)
+  intro st
+  have ⟨_, h2, h3, h4⟩ := history_canonical_and_retrieve (rep := rep) g ops hw k i
+  have h0 : sget (runSpec 1 [] (ops.take k)) i = 0 := by omega
+  rw [h0] at h2 h4
+  exact ⟨by rw [h2]; simp only [canon, Nat.mod_one]; exact toLimbs_zero n, by rw [h4]; exact toLimbs_zero n⟩
 
 /-- … and the boxed `retrieve()` of that value is 1, not the residue 0, while the fixed-width one is 0. -/
 theorem retrieve_one_modulus_one :
